@@ -89,7 +89,9 @@ PROPS = {
                      "tables of all 17 sizes are alive together, created large-to-small and small-to-large", ASAN_NOTE],
     ),
     "C04": dict(
-        runs=std(),
+        runs=std(thorough_extra=[
+            dict(cfg="plain", tag="q31", defs="-DSPQLIOS_Q120_USE_31_BIT_PRIMES", parts=16, tier="quick", info=True),
+            dict(cfg="plain", tag="q29", defs="-DSPQLIOS_Q120_USE_29_BIT_PRIMES", parts=16, tier="quick", info=True)]),
         rule=("case = one product-kernel call on worst-case operands (kernel, ref/avx2, ell, x/y family) or one traced "
               "transform batch (n, lane family, repetition: ntt, intt of its output, intt and ntt on the raw lanes); "
               "distinct by descriptor hash; non-trivial when ell >= 1 / n >= 2 with at least one lane >= 2^63"),
